@@ -29,6 +29,7 @@ type Ctx struct {
 	Quick bool
 	// anchors are repository packages (relative, e.g. "plugin/equal") whose statement coverage is reported
 	Anchors []string
+	isolations int64
 }
 
 func newCtx(prop, tier string, seed int64, level string) (*Ctx, error) {
